@@ -254,3 +254,24 @@ M('c10e-auto-destroy-skipped', 'C10', 'break', TX,
 M('c10e-previous-chain-leaked', 'C10', 'break', TX,
   '        if (tx->connp->out_decompressor != NULL) {\n            htp_tx_res_destroy_decompressors(tx->connp);\n        }\n',
   '', 'C10.e')
+
+# ---------------- C08
+M('c08b-junk-cap-deleted', 'C08', 'break', RQ,
+  '        if (connp->in_current_len > connp->in_current_read_offset + HTTP09_MAX_JUNK_LEN) {',
+  '        if (connp->in_current_len > connp->in_current_read_offset + HTTP09_MAX_JUNK_LEN && connp->in_tx->request_ignored_lines) {', 'C08.b')
+M('c08c-empty-chunk-line-not-consumed', 'C08', 'break', RS,
+  '            if (connp->out_chunked_length == -1004) {\n                connp->out_current_consume_offset = connp->out_current_read_offset;\n                continue;',
+  '            if (connp->out_chunked_length == -1004) {\n                continue;', 'C08.c')
+M('c08d-nul-skip-deleted', 'C08', 'break', 'htp/bstr.c',
+  '        if (data1[i] == 0) {\n            // skip leading zeroes to avoid quadratic complexity\n            continue;\n        }\n',
+  '', 'C08.d')
+M('c08a-folded-cap', 'C08', 'break', RS,
+  '                        if (bstr_len(connp->out_header) < HTP_MAX_HEADER_FOLDED) {',
+  '                        if (1) {', 'C08.a')
+M('c08e-second-per-byte-rescan', 'C08', 'break', RQ,
+  '        // Have we reached the end of the line?\n        if (connp->in_next_byte == LF) {\n            unsigned char *data;\n            size_t len;\n\n            if (htp_connp_req_consolidate_data(connp, &data, &len) != HTP_OK) {\n                return HTP_ERROR;\n            }\n\n            connp->in_tx->request_message_len += len;',
+  '        // Have we reached the end of the line?\n        if (connp->in_next_byte == LF || !req_probe_len(connp)) {\n            unsigned char *data;\n            size_t len;\n\n            if (htp_connp_req_consolidate_data(connp, &data, &len) != HTP_OK) {\n                return HTP_ERROR;\n            }\n\n            connp->in_tx->request_message_len += len;', 'C08.e',
+  edits=[(RQ, '        // Have we reached the end of the line?\n        if (connp->in_next_byte == LF) {\n            unsigned char *data;\n            size_t len;\n\n            if (htp_connp_req_consolidate_data(connp, &data, &len) != HTP_OK) {\n                return HTP_ERROR;\n            }\n\n            connp->in_tx->request_message_len += len;',
+          '        // Have we reached the end of the line?\n        if (connp->in_next_byte == LF || !req_probe_len(connp)) {\n            unsigned char *data;\n            size_t len;\n\n            if (htp_connp_req_consolidate_data(connp, &data, &len) != HTP_OK) {\n                return HTP_ERROR;\n            }\n\n            connp->in_tx->request_message_len += len;'),
+         (RQ, 'htp_status_t htp_connp_REQ_BODY_CHUNKED_LENGTH(htp_connp_t *connp) {',
+          'static int req_probe_len(htp_connp_t *connp) {\n    unsigned char *p = connp->in_current_data + connp->in_current_consume_offset;\n    size_t n = connp->in_current_read_offset - connp->in_current_consume_offset;\n    for (size_t i = 0; i < n; i++) if (p[i] > 0x7f) return 0;\n    return 1;\n}\n\nhtp_status_t htp_connp_REQ_BODY_CHUNKED_LENGTH(htp_connp_t *connp) {')])
